@@ -722,11 +722,13 @@ def _splits(ctx, prog):
              (f"{TRAJ}.split_distance_gaps", "distance", True),
              (f"{TRAJ}.split_speed_outliers", "speed", True)]
     for q, kind, stamped in specs:
-        f = prog.func(q)
-        ctx.analysed_fn(q)
+        # what the class executes under that name (its own definition or an
+        # inherited one), with the receiver of that class
+        f, recv_cls = prog.method(q)
+        ctx.analysed_fn(f.qualname)
         it = Interp(prog, inline=lambda fn: fn.name == "_jumps",
-                    max_depth=2)
-        r = it.run(f)
+                    max_depth=3)
+        r = it.run(f, self_cls=recv_cls)
         thr = tm.param(f.params[1])
         parts = [v for v, _ in r.returns if v.op == "comp"]
         ctx.require(len(parts) == 1, f"{q}: parts comprehension not found "
@@ -746,6 +748,15 @@ def _splits(ctx, prog):
             i = T("elem", itr, lid)
             sb = Interp(prog).subscript
             lo, hi = sb(b, i), sb(b, T("binop", "Add", i, const(1)))
+        elif is_call_to(itr, "builtins.zip") and len(itr.args[1]) == 2 \
+                and itr.args[1][0].op == "sub" and itr.args[1][0].args[1] \
+                is T("slice", tm.NONE, const(-1), tm.NONE) and \
+                itr.args[1][1] is Interp(prog).subscript(
+                    itr.args[1][0].args[0], S1) and not comp.args[3]:
+            # for start, end in zip(b[:-1], b[1:]): ... [start:end]
+            b = itr.args[1][0].args[0]
+            lo = T("elem", itr.args[1][0], lid)
+            hi = T("elem", itr.args[1][1], lid)
         elif is_call_to(itr, "builtins.zip") and len(itr.args[1]) == 2 \
                 and itr.args[1][1] is Interp(prog).subscript(
                     itr.args[1][0], S1) and not comp.args[3]:
